@@ -2374,7 +2374,6 @@ namespace awkward {
     int64_t index_length = index_.length();
     int64_t parents_length = parents.length();
 
-    int64_t starts_length = starts.length();
     int64_t numnull(0);
     struct Error err1 = kernel::IndexedArray_numnull<T>(
       kernel::lib::cpu,   // DERIVE
@@ -2399,17 +2398,23 @@ namespace awkward {
 
     ContentPtr next = content_.get()->carry(nextcarry, false);
 
-    bool inject_nones = false;
     std::pair<bool, int64_t> branchdepth = branch_depth();
-    if (numnull > 0  &&  !branchdepth.first  &&  negaxis != branchdepth.second) {
-      inject_nones = true;
-    }
     ContentPtr out = next.get()->sort_next(negaxis,
                                            starts,
                                            nextparents,
                                            outlength,
                                            ascending,
                                            stable);
+
+    if (branchdepth.first  ||  negaxis != branchdepth.second) {
+      // the sorted axis is below this level: nothing moves at this level,
+      // every entry (missing or not) stays where it was
+      IndexedArrayOf<int64_t, ISOPTION> unmoved(Identities::none(),
+                                                parameters_,
+                                                outindex,
+                                                out);
+      return unmoved.simplify_optiontype();
+    }
 
     Index64 nextoutindex(parents_length);
     struct Error err3 = kernel::IndexedArray_local_preparenext_64(
@@ -2427,66 +2432,6 @@ namespace awkward {
                                           nextoutindex,
                                           out);
     out = tmp.simplify_optiontype();
-
-    if (inject_nones) {
-      out = std::make_shared<RegularArray>(Identities::none(),
-                                           util::Parameters(),
-                                           out,
-                                           parents_length,
-                                           0);
-    }
-
-    if (!branchdepth.first  &&  negaxis == branchdepth.second) {
-      return out;
-    }
-    else {
-      if (RegularArray* raw =
-        dynamic_cast<RegularArray*>(out.get())) {
-        out = raw->toListOffsetArray64(true);
-      }
-      if (ListOffsetArray64* raw =
-        dynamic_cast<ListOffsetArray64*>(out.get())) {
-        Index64 outoffsets(starts.length() + 1);
-        if (starts.length() > 0  &&  starts.getitem_at_nowrap(0) != 0) {
-          throw std::runtime_error(
-            std::string("sort_next with unbranching depth > negaxis expects a "
-                        "ListOffsetArray64 whose offsets start at zero")
-            + FILENAME(__LINE__));
-        }
-        struct Error err4 = kernel::IndexedArray_reduce_next_fix_offsets_64(
-          kernel::lib::cpu,   // DERIVE
-          outoffsets.data(),
-          starts.data(),
-          starts_length,
-          outindex.length());
-        util::handle_error(err4, classname(), identities_.get());
-
-        IndexedArrayOf<int64_t, ISOPTION> tmp(Identities::none(),
-                                              parameters_,
-                                              outindex,
-                                              raw->content());
-        if (inject_nones) {
-          return tmp.simplify_optiontype();
-        }
-        return std::make_shared<ListOffsetArray64>(
-          raw->identities(),
-          raw->parameters(),
-          outoffsets,
-          tmp.simplify_optiontype());
-      }
-      if (IndexedArrayOf<int64_t, ISOPTION>* raw =
-        dynamic_cast<IndexedArrayOf<int64_t, ISOPTION>*>(out.get())) {
-          return out;
-      }
-      else {
-        throw std::runtime_error(
-          std::string("sort_next with unbranching depth > negaxis is only "
-                      "expected to return RegularArray or ListOffsetArray64 or "
-                      "IndexedArrayOf<int64_t, ISOPTION>; "
-                      "instead, it returned ") + out.get()->classname()
-          + FILENAME(__LINE__));
-      }
-    }
 
     return out;
   }
@@ -2507,7 +2452,6 @@ namespace awkward {
     int64_t index_length = index_.length();
     int64_t parents_length = parents.length();
 
-    int64_t starts_length = starts.length();
     int64_t numnull(0);
     struct Error err1 = kernel::IndexedArray_numnull<T>(
       kernel::lib::cpu,   // DERIVE
@@ -2561,10 +2505,6 @@ namespace awkward {
 
     ContentPtr next = content_.get()->carry(nextcarry, false);
 
-    bool inject_nones = false;
-    if (numnull > 0  &&  !branchdepth.first  &&  negaxis != branchdepth.second) {
-      inject_nones = true;
-    }
     ContentPtr out = next.get()->argsort_next(negaxis,
                                               starts,
                                               nextshifts,
@@ -2572,6 +2512,16 @@ namespace awkward {
                                               outlength,
                                               ascending,
                                               stable);
+
+    if (branchdepth.first  ||  negaxis != branchdepth.second) {
+      // the sorted axis is below this level: nothing moves at this level,
+      // every entry (missing or not) stays where it was
+      IndexedArrayOf<int64_t, ISOPTION> unmoved(Identities::none(),
+                                                util::Parameters(),
+                                                outindex,
+                                                out);
+      return unmoved.simplify_optiontype();
+    }
 
     bool nulls_merged = false;
     if (isoption()) {
@@ -2618,66 +2568,6 @@ namespace awkward {
                                           nextoutindex,
                                           out);
     out = tmp.simplify_optiontype();
-
-    if (inject_nones) {
-      out = std::make_shared<RegularArray>(Identities::none(),
-                                           util::Parameters(),
-                                           out,
-                                           parents_length,
-                                           0);
-    }
-
-    if (!branchdepth.first  &&  negaxis == branchdepth.second) {
-      return out;
-    }
-    else {
-      if (RegularArray* raw =
-        dynamic_cast<RegularArray*>(out.get())) {
-          out = raw->toListOffsetArray64(true);
-      }
-      if (ListOffsetArray64* raw =
-        dynamic_cast<ListOffsetArray64*>(out.get())) {
-        Index64 outoffsets(starts.length() + 1);
-        if (starts.length() > 0  &&  starts.getitem_at_nowrap(0) != 0) {
-          throw std::runtime_error(
-            std::string("argsort_next with unbranching depth > negaxis expects a "
-                        "ListOffsetArray64 whose offsets start at zero")
-            + FILENAME(__LINE__));
-        }
-        struct Error err8 = kernel::IndexedArray_reduce_next_fix_offsets_64(
-          kernel::lib::cpu,   // DERIVE
-          outoffsets.data(),
-          starts.data(),
-          starts_length,
-          outindex.length());
-        util::handle_error(err8, classname(), identities_.get());
-
-        IndexedArrayOf<int64_t, ISOPTION> tmp(Identities::none(),
-                                              util::Parameters(),
-                                              outindex,
-                                              raw->content());
-        if (inject_nones) {
-          return tmp.simplify_optiontype();
-        }
-        return std::make_shared<ListOffsetArray64>(
-          raw->identities(),
-          raw->parameters(),
-          outoffsets,
-          tmp.simplify_optiontype());
-      }
-      if (IndexedArrayOf<int64_t, ISOPTION>* raw =
-        dynamic_cast<IndexedArrayOf<int64_t, ISOPTION>*>(out.get())) {
-          return out;
-      }
-      else {
-        throw std::runtime_error(
-          std::string("argsort_next with unbranching depth > negaxis is only "
-                      "expected to return RegularArray or ListOffsetArray64 or "
-                      "IndexedArrayOf<int64_t, ISOPTION>; "
-                      "instead, it returned ") + out.get()->classname()
-          + FILENAME(__LINE__));
-      }
-    }
 
     return out;
   }
